@@ -75,11 +75,19 @@ fn judge(sc: &Scn, out: &Outcome) -> Vec<(String, String)> {
             }
             bad
         }
-        (Scn::Udp(u), Outcome::Udp(o)) => o
-            .bad
-            .iter()
-            .map(|(k, d)| (format!("udp:{}:{k}", if u.socks { "socks5" } else { "udp-remote" }), format!("{d}  [{}]", u.line())))
-            .collect(),
+        (Scn::Udp(u), Outcome::Udp(o)) => {
+            // one SOCKS5 client socket talking to IPv4 and IPv6 targets: its own canonical key
+            let mixed = u.socks && u.targets.iter().any(|t| *t == 2) && u.targets.iter().any(|t| *t != 2);
+            o.bad
+                .iter()
+                .map(|(k, d)| {
+                    (
+                        format!("udp:{}:{}{k}", if u.socks { "socks5" } else { "udp-remote" }, if mixed { "mixed-address-families:" } else { "" }),
+                        format!("{d}  [{}]", u.line()),
+                    )
+                })
+                .collect()
+        }
         _ => vec![],
     }
 }
@@ -274,6 +282,10 @@ fn fixed_pass(r: &mut Rng, tier: Tier) -> Vec<Scn> {
         v.push(Scn::Udp(UdpScn { socks, clients: 2, targets: vec![2], sizes: vec![12, 0, 700], replies: 1, domain: false, idle_ms: 0, seed: r.next() % 1_000_000 }));
     }
     v.push(Scn::Udp(UdpScn { socks: true, clients: 3, targets: vec![0, 1], sizes: vec![16, 2, 1400], replies: 1, domain: true, idle_ms: 0, seed: r.next() % 1_000_000 }));
+    // one SOCKS5 UDP client socket, an IPv4 and an IPv6 target (and the same through two UDP remotes, where each
+    // listener has its own flow id)
+    v.push(Scn::Udp(UdpScn { socks: true, clients: 1, targets: vec![0, 2], sizes: vec![16, 17], replies: 1, domain: false, idle_ms: 0, seed: 3 }));
+    v.push(Scn::Udp(UdpScn { socks: false, clients: 2, targets: vec![0, 2], sizes: vec![16, 17], replies: 1, domain: false, idle_ms: 0, seed: 4 }));
     v
 }
 
@@ -437,8 +449,8 @@ was propagated; distinct by scenario text";
     }
     let n_fixed = scs.len() - n_corpus;
     let (n_tcp, n_udp, width) = match args.tier {
-        Tier::Quick => (0, 0, 8),
-        Tier::Thorough => (70, 40, 10),
+        Tier::Quick => (10, 6, 8),
+        Tier::Thorough => (190, 90, 10),
     };
     let mut r2 = rng.fork(2);
     for _ in 0..n_tcp {
@@ -455,6 +467,11 @@ was propagated; distinct by scenario text";
         .map(|socks| Scn::Udp(UdpScn { socks: *socks, clients: 2, targets: vec![0, 1], sizes: vec![24], replies: 1, domain: false, idle_ms: 10_600, seed: 5 }))
         .collect();
     let width = args.opt("--width").and_then(|w| w.parse().ok()).unwrap_or(width);
+    {
+        let mut seen = std::collections::HashSet::new();
+        scs.retain(|s| seen.insert(s.line()));
+    }
+    let idle: Vec<Scn> = idle.into_iter().filter(|s| !scs.iter().any(|x| x.line() == s.line())).collect();
     // distribute over worlds: consecutive scenarios share a world
     let per_world = 6usize;
     let mut jobs: Vec<(Vec<usize>, bool)> = vec![];
@@ -462,6 +479,11 @@ was propagated; distinct by scenario text";
         jobs.push((chunk.to_vec(), wi % 3 != 2));
     }
     let base = scs.len();
+    // the server part of the model on the idle scenario: is a datagram for a finished forwarder forwarded or dropped?
+    let model_after_idle: Option<bool> = drv.as_mut().map(|d| {
+        let r = d.batch(&["srv-reset".to_string(), "srv-recv 7 01 53 aa".to_string(), "srv-expire 0".to_string(), "srv-recv 7 01 53 bb".to_string()]);
+        r[3].starts_with("to-target")
+    });
     for (i, s) in idle.iter().enumerate() {
         scs.push(s.clone());
         jobs.push((vec![base + i], true));
@@ -518,6 +540,20 @@ was propagated; distinct by scenario text";
             }
         }
         let mut bad = judge(sc, &out);
+        if let (Scn::Udp(u), Some(pred), Outcome::Udp(_)) = (sc, model_after_idle, &out) {
+            if u.idle_ms >= 10_300 && u.idle_ms < 19_000 {
+                rep.model_compared += 1;
+                let delivered = !bad.iter().any(|(k, _)| k.contains("after-idle"));
+                if pred != delivered && (bad.is_empty() || bad.iter().all(|(k, _)| k.contains("after-idle"))) {
+                    rep.fail(
+                        FailKind::Model,
+                        "srv:after-idle",
+                        &format!("a datagram for a flow whose forwarder has finished: model says {}, the server {}", if pred { "forwarded by a new forwarder" } else { "dropped" }, if delivered { "forwarded it" } else { "dropped it" }),
+                        json!({"op": "scenario", "line": sc.line()}),
+                    );
+                }
+            }
+        }
         if !bad.is_empty() {
             // shrink / confirm: each failing connection alone, then the whole scenario alone
             reruns += 1;
